@@ -326,6 +326,15 @@ def _sections(draw, ctx):
             lines.append([bad, "X", None])
             if draw(st.integers(0, 5)) == 0:      # the same non-member twice in a row: two warnings
                 lines.append([bad, "X", None])
+    # a line is decoded for what it says, wherever it stands: in a quarter of the sections the S lines
+    # (and, separately, the E lines) change places among themselves, so they are no longer in tick order
+    for kind in ("S", "E"):
+        slots = [k for k, x in enumerate(lines) if x[1] == kind]
+        if len(slots) >= 2 and draw(st.integers(0, 3)) == 0:
+            perm = draw(st.permutations(slots))
+            moved = [lines[k] for k in perm]
+            for k, x in zip(slots, moved):
+                lines[k] = x
     from cpverif import spec as S_
     return {"lines": lines, "header": draw(st.sampled_from(S_.HEADER_LIST))}
 
